@@ -9,6 +9,7 @@ import (
 	"time"
 
 	"github.com/ory/fosite"
+	"github.com/ory/fosite/compose"
 	"github.com/ory/fosite/zz_verif_h/world"
 	"github.com/ory/fosite/zz_verif_h/zz"
 )
@@ -17,9 +18,9 @@ const (
 	atLife = time.Hour
 	rtLife = 30 * 24 * time.Hour
 
-	originCode     = 0
-	originHybrid   = 1
-	originPassword = 2
+	originCode        = 0
+	originHybrid      = 1
+	originPassword    = 2
 	originHybridFresh = 3 // hybrid authorize response, code not redeemed yet
 )
 
@@ -197,11 +198,11 @@ func (s *st) revoke(tag string, narrow bool) {
 
 	switch {
 	case !authenticated:
-		s.cover(tag+":unauthenticated")
+		s.cover(tag + ":unauthenticated")
 		zz.Assert(err != nil, tag+": unauthenticated caller is not accepted")
 		same(tag + ": unauthenticated caller changes nothing")
 	case alias:
-		s.cover(tag+":alias-forgery")
+		s.cover(tag + ":alias-forgery")
 		zz.Note("C08: a tampered token whose signature part equals a stored signature is treated as outside the statement (either outcome accepted)")
 		if pres != s.client[t.Grant] && t.Live {
 			same(tag + ": foreign client changes nothing")
@@ -213,19 +214,19 @@ func (s *st) revoke(tag string, narrow bool) {
 			}
 		}
 	case t == nil:
-		s.cover(tag+":unknown-token")
+		s.cover(tag + ":unknown-token")
 		zz.Assert(err == nil, tag+": unknown token answered with success")
 		zz.Assert(status == 200, tag+": unknown token answered with status 200")
 		same(tag + ": unknown token changes nothing")
 	case s.unsure[s.index(t)]:
-		s.cover(tag+":undetermined-token")
+		s.cover(tag + ":undetermined-token")
 		for i, o := range s.l.Toks {
 			if o.Grant == t.Grant && o.Live {
 				s.unsure[i] = true
 			}
 		}
 	case !t.Live:
-		s.cover(tag+":already-invalid")
+		s.cover(tag + ":already-invalid")
 		if pres == s.client[t.Grant] {
 			zz.Assert(err == nil, tag+": already-invalid token answered with success")
 			zz.Assert(status == 200, tag+": already-invalid token answered with status 200")
@@ -235,20 +236,20 @@ func (s *st) revoke(tag string, narrow bool) {
 		}
 		same(tag + ": already-invalid token changes nothing")
 	case pres != s.client[t.Grant]:
-		s.cover(tag+":foreign-client")
+		s.cover(tag + ":foreign-client")
 		zz.Assert(err != nil, tag+": foreign client refused")
 		zz.Assert(name == "unauthorized_client", tag+": foreign client refused as unauthorized_client")
 		same(tag + ": foreign client changes nothing")
 	default:
-		s.cover(tag+":owner")
+		s.cover(tag + ":owner")
 		if !t.TE {
-			s.cover(tag+":owner-authorize-endpoint-token")
+			s.cover(tag + ":owner-authorize-endpoint-token")
 		}
 		zz.Assert(err == nil, tag+": owner's revocation accepted")
 		zz.Assert(status == 200, tag+": owner's revocation answered with status 200")
 		e := t.Expiry(now)
 		if e == 1 {
-			s.cover(tag+":owner-expired-token")
+			s.cover(tag + ":owner-expired-token")
 		}
 		s.markRevoked(t, e == 1 && t.TE)
 	}
@@ -363,4 +364,78 @@ func ZZ_C08_twice_T() {
 // ZZ_C08_password_T: resource-owner password origin (thorough tier only).
 func ZZ_C08_password_T() {
 	run(originPassword, 1, 4, 1)
+}
+
+// ZZ_C08_jwt: the provider issues JWT access tokens (oauth2.DefaultJWTStrategy, model signer), refresh tokens
+// stay HMAC tokens. The owner revokes the grant through its access token or its refresh token with any hint
+// (absent, right, wrong, unknown): afterwards the access token and the refresh token issued with it are
+// inactive and the refresh token is not exchanged; a revocation attempt by another client changes nothing;
+// the other grant is untouched.
+func ZZ_C08_jwt() {
+	w := world.NewX(world.XOptions{JWTAccess: true})
+	var at, rt [2]string
+	for g, c := range []string{"c1", "c2"} {
+		code, err := w.AuthorizeCodeSession(c, []string{"offline", "photos"}, nil, world.NewJWTSession("peter"))
+		zz.Assume(err == nil)
+		resp, err := w.Redeem(c, code)
+		zz.Assume(err == nil && world.RefreshTokenOf(resp) != "")
+		at[g], rt[g] = resp.GetAccessToken(), world.RefreshTokenOf(resp)
+	}
+	live := func(g int) (bool, bool) {
+		a, _ := w.Introspect(at[g], fosite.AccessToken)
+		r, _ := w.Introspect(rt[g], fosite.RefreshToken)
+		return a, r
+	}
+	a, r := live(0)
+	zz.Assume(a && r)
+	byAccess := zz.Choice("by", 2) == 0
+	tok := rt[0]
+	if byAccess {
+		tok = at[0]
+	}
+	hint := []string{"", "access_token", "refresh_token", "garbage"}[zz.Choice("hint", 4)]
+	if zz.Choice("foreign-first", 2) == 1 {
+		err := w.Revoke("c2", "", tok, hint)
+		zz.Observe("foreign.err", world.ErrName(err))
+		a, r = live(0)
+		zz.Assert(a && r, "jwt: a revocation request of another client leaves the tokens active")
+		zz.Cover("jwt:foreign-attempt", true)
+	}
+	err := w.Revoke("c1", "", tok, hint)
+	zz.Observe("revoke.err", world.ErrName(err))
+	zz.Assert(err == nil, "jwt: the owner's revocation is accepted")
+	a, r = live(0)
+	zz.Assert(!a, "jwt: after the owner's revocation the access token of the grant is inactive")
+	zz.Assert(!r, "jwt: after the owner's revocation the refresh token of the grant is inactive")
+	_, err = w.Refresh("c1", rt[0])
+	zz.Assert(err != nil, "jwt: after the owner's revocation the refresh token is not exchanged")
+	a, r = live(1)
+	zz.Assert(a && r, "jwt: tokens of another grant are unaffected")
+	zz.Cover("jwt:revoked-by-access-token", byAccess)
+	zz.Cover("jwt:revoked-by-refresh-token", !byAccess)
+}
+
+// ZZ_C08_par_twice: two authorizations attempted from ONE pushed request. Either the second is refused, or
+// there are two grants - and then revoking the first one's refresh token kills the first grant's tokens and
+// nothing of the second grant.
+func ZZ_C08_par_twice() {
+	w := world.New(world.Options{Extra: []compose.Factory{compose.PushedAuthorizeHandlerFactory}})
+	g1, g2, ok1, ok2 := w.TwoGrantsFromOnePush("c1", world.Secret1)
+	zz.Assume(ok1)
+	if !ok2 {
+		zz.Cover("par-twice:second-use-refused", true)
+		return
+	}
+	zz.Cover("par-twice:two-grants", true)
+	tok := world.RefreshTokenOf(g1)
+	if zz.Choice("by", 2) == 0 {
+		tok = g1.GetAccessToken()
+	}
+	zz.Assert(w.Revoke("c1", "", tok, "") == nil, "par twice: the owner's revocation is accepted")
+	a1, _ := w.Introspect(g1.GetAccessToken(), fosite.AccessToken)
+	r1, _ := w.Introspect(world.RefreshTokenOf(g1), fosite.RefreshToken)
+	zz.Assert(!a1 && !r1, "par twice: the revoked grant's tokens are inactive")
+	a2, _ := w.Introspect(g2.GetAccessToken(), fosite.AccessToken)
+	r2, _ := w.Introspect(world.RefreshTokenOf(g2), fosite.RefreshToken)
+	zz.Assert(a2 && r2, "par twice: tokens of the other grant are unaffected by the revocation")
 }
